@@ -132,6 +132,30 @@ fn run_prop(prop: &str, tier: Tier, seed: u64) -> i32 {
             props::seq::c17(&ctx);
             ctx.finish(tier.pick(40, 400))
         }
+        "C16" => {
+            let ctx = Ctx::new(
+                "C16",
+                tier,
+                seed,
+                "exploration",
+                "differential testing: each generated E1 history (appends, batches incl. batches spanning rotations, both read APIs, peeks, offset-addressed reads, counts, rejected operations, reopen events) is expanded and executed with the FD/io_uring backend, then exactly the same concrete steps are replayed in separate processes with the mmap backend; every response is compared (Ok/Err kind, entries by (length, content hash), counts). Non-trivial = the history contains a batch append spanning a rotation, or a batch read issued with the cursor in a sealed block while the tail holds entries, or rotations together with batch reads.",
+                &["error messages are compared by ErrorKind only", "io_uring is available in this sandbox, so the FD run really uses it"],
+            );
+            props::seq::c16(&ctx);
+            ctx.finish(tier.pick(30, 300))
+        }
+        "C02" => {
+            let ctx = Ctx::new(
+                "C02",
+                tier,
+                seed,
+                "exploration",
+                "E1 histories with peeks (read_next(false), batch_read(b,false,None)) and offset-addressed reads (any offset class: boundary / inside payload / inside header / end / beyond / arbitrary; checkpoint true and false) interleaved with appends and consuming reads. Relation 1: every peek is immediately followed by the consuming read with identical arguments and must return the same entries. Relation 2 (metamorphic): the same history with all non-consuming reads erased is executed in a second run; all consuming results, counts, the final file count and the reclamation bookkeeping (H3 tracker view) after a full drain must be identical. Relation 3: every element of an offset-addressed read is an appended payload of that topic (or, for the first element, a suffix of one), in strictly increasing append order. Non-trivial = a peek issued with the cursor at a block end, or an offset read with checkpoint=true in AtLeastOnce mode, or peek pairs / offset reads in a history with rotations.",
+                &["H3 (cfg walrus_verif) exposes per-file locked/checkpointed/total counters read-only", "file names are wall-clock based, so tracker views are compared as multisets of counters"],
+            );
+            props::seq::c02(&ctx);
+            ctx.finish(tier.pick(30, 300))
+        }
         other => {
             eprintln!("unknown property {}", other);
             2
